@@ -467,8 +467,8 @@ theorem foldl_repStep_ok (ks : List Nat) (v : Valet) (h : TableOk v) : TableOk (
   | cons k ks ih => exact ih _ (repStep_ok h k)
 
 theorem lookup_map_tx (ca : Nat) (l : List (Nat × Conn)) :
-    lookup ca (l.map (fun p => (p.1, { p.2 with txPending := false }))) =
-      (lookup ca l).map (fun c => { c with txPending := false }) := by
+    lookup ca (l.map (fun p => (p.1, { p.2 with txPending := p.2.txPending && p.2.stalled }))) =
+      (lookup ca l).map (fun c => { c with txPending := c.txPending && c.stalled }) := by
   induction l with
   | nil => rfl
   | cons p l ih =>
